@@ -356,7 +356,10 @@ def run_history(sc, want_idempotence=True, faults=None, audits=True):
             before_all = dict(before)
             for vb in valid_before:
                 # (only names the unregistered-Manifest scan looks for can be adopted by the update)
-                if vb not in before_all and os.path.basename(vb) in G.MANIFEST_NAMES and vb in valid_before_ents:
+                if vb not in before_all and os.path.basename(vb) in G.MANIFEST_NAMES and vb in valid_before_ents and \
+                        psw(os.path.dirname(vb), scope):
+                    # (the scan for unregistered Manifests covers the updated directory only: one lying above it stays
+                    # unknown to a sub-directory update)
                     before_all[vb] = valid_before_ents[vb]     # unregistered but valid: update will adopt it
             for mp, ents in before_all.items():
                 if ents is None:
